@@ -1069,6 +1069,14 @@ where
             TsType::TsArrayType(..) | TsType::TsTupleType(..) => {
                 runtime_types.insert(Some(atom!("Array")));
             }
+            // `readonly string[]`, `readonly [a, b]`
+            TsType::TsTypeOperator(TsTypeOperator {
+                op: TsTypeOperatorOp::ReadOnly,
+                type_ann,
+                ..
+            }) => {
+                runtime_types.extend(self.infer_runtime_type(type_ann));
+            }
             TsType::TsLitType(TsLitType { lit, .. }) => match lit {
                 TsLit::Str(..) | TsLit::Tpl(..) => {
                     runtime_types.insert(Some(atom!("String")));
